@@ -108,6 +108,9 @@ Theorem c11_source_kernels : forall s i sigma r, ~ (sigma == 0)%Q -> ~ (r == 0)%
   (src_get_intensity s sigma r == get_intensity_q s sigma r)%Q /\ (src_get_snr i sigma r == get_snr_q i sigma r)%Q.
 Proof. exact k11_all. Qed.
 Print Assumptions c11_source_kernels.
+Theorem c11_source_chi2_df : forall df dt, src_chi2_df df dt = (4 * rhe (df * dt))%Z.
+Proof. exact k_chi2_df. Qed.
+Print Assumptions c11_source_chi2_df.
 Theorem c11_source_stream_noise : forall s v a, (a < length (own_var s))%nat ->
   (nth a (own_var (vstep s (StreamNoise a v))) 0 == nth a (own_var s) 0 + v * v)%Q /\
   forall sd, (sd * sd == nth a (own_var s) 0)%Q -> (src_stream_noise_var sd v == nth a (own_var (vstep s (StreamNoise a v))) 0)%Q.
